@@ -207,6 +207,12 @@ def h_noisy_mapping(ctx, which, seed=9):
             ctx.check(ctx.ge(comp.loss, 0) and ctx.le(comp.loss, f(1, 10)), "noisy:drawn-loss-within-declared-bounds")
 
 
+def xh_conditions(tier):
+    # float behaviour of the phase reduction (outside the real-arithmetic model of symx)
+    t = 240 if tier == "quick" else 480
+    return [dict(name="phases._permutation_phases_in_range", file="xh/c14_phases.py", func="_permutation_phases_in_range", timeout=t, prop="C14")]
+
+
 def harnesses(tier):
     bs = [dict(n=n, m=m) for n in (2, 3, 4) for m in range(n - 1)]
     mono = []
